@@ -246,6 +246,14 @@ type FuncSpec struct {
 	// through its pointer argument o and reports an error) counts as an assignment to o when the loop's state is collected.
 	SkipFields  []string
 	OutCallInit bool
+	// ---- (C02, round 5) FieldState: with LoopStyle "state" / "ctl", a field assignment `x.F = e` in a loop body counts as an assignment to
+	// the variable x when the loop's state is collected (`for .. { k.Keys = append(k.Keys, v) }` threads k through the loop).
+	// LocalOut / outParams entries with Index -1 name a METHOD that writes through its pointer receiver (see okPattern).
+	FieldState bool
+	// LoopLocalErr: with LoopStyle "state", the variable `err` is NOT loop state when it is dead at the loop head and at the loop exit:
+	// every round first mentions it in a top-level assignment `err = <call>` whose right side does not read it, nothing after the loop
+	// mentions it (no naked return of a named result, no closure that captures it) and the loop is not nested in another loop.
+	LoopLocalErr bool
 	// (C01) ClosureBinderTypes (with Closures): Go parameter type (source text) -> Lean type: a parameter of a function literal with
 	// that type gets a typed binder `(p : T)` (an unnamed `_ context.Context` of a function VALUE stored in a nil-able field has no
 	// use that would fix its type otherwise)
@@ -326,6 +334,7 @@ type tr struct {
 	syn         map[string]string    // PtrSynonyms: x -> y for `x := (*T)(y)`
 	oracleCalls map[*ast.CallExpr]bool // OracleVars: method calls on an oracle variable seen by `call` ...
 	oracleBound map[*ast.CallExpr]bool // ... and those whose next state was bound by okPattern
+	fnBody      *ast.BlockStmt       // (LoopLocalErr) body of the function being translated
 }
 
 // ctlFrame: one enclosing GoX.loopCtl loop: its state tuple and the depth of switch statements at its entry
@@ -945,6 +954,22 @@ func (t *tr) okPattern0(call ast.Expr, v string) string {
 	op, ok := t.lookupOutParam(exprString(fun))
 	if !ok || op.Index >= len(c.Args) {
 		return v
+	}
+	if op.Index < 0 {
+		// (C02, round 5) OutParam{-1, ..}: the callee is a METHOD that writes through its pointer RECEIVER (`err = webKey.UnmarshalJSON(raw)`):
+		// the receiver identifier is the out-parameter (the Rename of the callee passes it on)
+		sel, isSel := fun.(*ast.SelectorExpr)
+		if !isSel {
+			return v
+		}
+		recv, isIdent := sel.X.(*ast.Ident)
+		if !isIdent {
+			return t.bad("receiver out-parameter that is not an identifier", call)
+		}
+		if v == "_" || v == "" {
+			return t.ident(recv.Name)
+		}
+		return "(" + v + ", " + t.ident(recv.Name) + ")"
 	}
 	name := strings.TrimPrefix(exprString(c.Args[op.Index]), "&")
 	if y, ok := t.syn[name]; ok {
@@ -1754,7 +1779,7 @@ func (t *tr) block(stmts []ast.Stmt, k cont) string {
 				return rest()
 			}
 			// f(v, ...) where f writes through its pointer argument v:  let v := f v ...
-			if op, ok := t.lookupOutParam(exprString(c.Fun)); ok && op.Keep && op.Index < len(c.Args) && (outParamsHas(exprString(c.Fun)) || t.spec.LocalOut != nil) {
+			if op, ok := t.lookupOutParam(exprString(c.Fun)); ok && op.Keep && op.Index >= 0 && op.Index < len(c.Args) && (outParamsHas(exprString(c.Fun)) || t.spec.LocalOut != nil) {
 				if se, isSlice := c.Args[op.Index].(*ast.SliceExpr); isSlice && t.spec.SliceAlias && se.High == nil && se.Low != nil && !se.Slice3 {
 					// f(x[n:], ..) writes into the tail of x
 					base := t.expr(se.X)
@@ -2690,6 +2715,7 @@ func translateFunc(fset *token.FileSet, fd *ast.FuncDecl, spec *FuncSpec) (strin
 		varTypes: map[string]string{}, aliases: map[string][2]string{}}
 	t.oracleCalls, t.oracleBound = map[*ast.CallExpr]bool{}, map[*ast.CallExpr]bool{}
 	t.funcVals = map[string]bool{}
+	t.fnBody = fd.Body
 	t.declareFields(fd.Recv)
 	t.declareFields(fd.Type.Params)
 	t.declareFields(fd.Type.Results)
@@ -2780,6 +2806,28 @@ func (t *tr) imperativeAssign(x *ast.AssignStmt, stmts []ast.Stmt, k cont, rest 
 			}
 			return "(match " + t.expr(call) + " with\n" + t.pad() + "| " + t.wpat(call, ".ok "+okPat) + " =>\n" + t.pad() + "  " + post + okB + "\n" + t.pad() +
 				"| " + t.wpat(call, ".error err") + " =>\n" + t.pad() + "  " + errB + ")", true
+		}
+	}
+	// (C02, round 5; ErrElse) err := f(..)   followed by   if err != nil { E } else { S }   (the inverted spelling of the form above):
+	// S is the success branch, both go on with the statements after the if
+	if t.spec.ErrElse && len(x.Lhs) == 1 && len(x.Rhs) == 1 && exprString(x.Lhs[0]) == "err" && len(stmts) > 1 {
+		if ifs, ok := stmts[1].(*ast.IfStmt); ok && ifs.Init == nil && ifs.Else != nil && isErrNotNil(ifs.Cond) {
+			if c, isCall := x.Rhs[0].(*ast.CallExpr); isCall && !t.spec.AlwaysOut[exprString(c.Fun)] {
+				t.declared["err"] = true
+				okPat := t.okPattern(c, "_")
+				post := t.takePost()
+				cont := memo(func() string { return t.block(stmts[2:], k) })
+				t.indent++
+				saved := t.errInScope
+				t.errInScope = true
+				errB := t.block(ifs.Body.List, cont)
+				t.errInScope = false
+				okB := t.elseBranch(ifs.Else, cont)
+				t.errInScope = saved
+				t.indent--
+				return "(match " + t.expr(c) + " with\n" + t.pad() + "| " + t.wpat(c, ".ok "+okPat) + " =>\n" + t.pad() + "  " + post + okB + "\n" + t.pad() +
+					"| " + t.wpat(c, ".error err") + " =>\n" + t.pad() + "  " + errB + ")", true
+			}
 		}
 	}
 	// err := f(.., &x)  that is NOT followed by a nil check, f writing x on both paths: the result travels on as a value
@@ -2966,7 +3014,7 @@ func (t *tr) assignedOuter(body *ast.BlockStmt) []string {
 	local := map[string]bool{}
 	ast.Inspect(body, func(n ast.Node) bool {
 		if c, isCall := n.(*ast.CallExpr); isCall && t.spec.OutCallAny {
-			if op, found := t.lookupOutParam(exprString(c.Fun)); found && op.Keep && op.Index < len(c.Args) {
+			if op, found := t.lookupOutParam(exprString(c.Fun)); found && op.Keep && op.Index >= 0 && op.Index < len(c.Args) {
 				name := strings.TrimPrefix(exprString(c.Args[op.Index]), "&")
 				if t.declared[name] && !local[name] && !seen[name] {
 					seen[name] = true
@@ -2977,7 +3025,7 @@ func (t *tr) assignedOuter(body *ast.BlockStmt) []string {
 		}
 		if es, isExpr := n.(*ast.ExprStmt); isExpr && t.spec.OutCallState {
 			if c, isCall := es.X.(*ast.CallExpr); isCall {
-				if op, found := t.lookupOutParam(exprString(c.Fun)); found && op.Keep && op.Index < len(c.Args) {
+				if op, found := t.lookupOutParam(exprString(c.Fun)); found && op.Keep && op.Index >= 0 && op.Index < len(c.Args) {
 					name := strings.TrimPrefix(exprString(c.Args[op.Index]), "&")
 					if t.declared[name] && !local[name] && !seen[name] {
 						seen[name] = true
@@ -2999,7 +3047,7 @@ func (t *tr) assignedOuter(body *ast.BlockStmt) []string {
 				if !found && t.spec.OutCallInit {
 					op, found = t.lookupOutParam(exprString(c.Fun))
 				}
-				if found && op.Keep && op.Index < len(c.Args) {
+				if found && op.Keep && op.Index >= 0 && op.Index < len(c.Args) {
 					name := strings.TrimPrefix(exprString(c.Args[op.Index]), "&")
 					if t.declared[name] && !local[name] && !seen[name] {
 						seen[name] = true
@@ -3017,6 +3065,11 @@ func (t *tr) assignedOuter(body *ast.BlockStmt) []string {
 				name = exprString(y.X)
 			case *ast.IndexExpr:
 				name = exprString(y.X)
+			case *ast.SelectorExpr:
+				// (C02, round 5) FieldState: `x.F = e` in a loop body is an assignment to x (a write through the pointer receiver / a struct variable)
+				if id, isId := y.X.(*ast.Ident); isId && t.spec.FieldState {
+					name = id.Name
+				}
 			}
 			if name == "" || name == "_" {
 				continue
@@ -3037,12 +3090,75 @@ func (t *tr) assignedOuter(body *ast.BlockStmt) []string {
 	return out
 }
 
+// loopLocalErr: see FuncSpec.LoopLocalErr
+func (t *tr) loopLocalErr(x *ast.RangeStmt) bool {
+	if !t.spec.LoopLocalErr || t.fnBody == nil {
+		return false
+	}
+	first := false
+	for _, s := range x.Body.List {
+		if !usesIdent(s, "err") {
+			continue
+		}
+		as, ok := s.(*ast.AssignStmt)
+		if !ok || len(as.Lhs) != 1 || exprString(as.Lhs[0]) != "err" {
+			return false
+		}
+		for _, r := range as.Rhs {
+			if usesIdent(r, "err") {
+				return false
+			}
+		}
+		first = true
+		break
+	}
+	if !first {
+		return false
+	}
+	dead := true
+	ast.Inspect(t.fnBody, func(n ast.Node) bool {
+		switch y := n.(type) {
+		case *ast.Ident:
+			if y.Name == "err" && y.Pos() > x.End() {
+				dead = false
+			}
+		case *ast.ReturnStmt:
+			if len(y.Results) == 0 && y.Pos() > x.End() {
+				dead = false // a naked return reads the named results
+			}
+		case *ast.FuncLit:
+			if usesIdent(y, "err") {
+				dead = false
+			}
+		case *ast.RangeStmt:
+			if y != x && y.Pos() < x.Pos() && x.End() <= y.End() {
+				dead = false
+			}
+		case *ast.ForStmt:
+			if y.Pos() < x.Pos() && x.End() <= y.End() {
+				dead = false
+			}
+		}
+		return dead
+	})
+	return dead
+}
+
 // stateLoop (LoopStyle "state"):
 //
 //	for k, v := range X { body }   body assigns variables S of the enclosing function, no return   ->  let S := GoX.foldKV/foldList X S (fun S k v => body; S)
 //	for _, v := range X { body }   body only returns early, assigns nothing outside                ->  match GoX.first X (fun v => body-or-none) with | some r => r | none => rest
 func (t *tr) stateLoop(x *ast.RangeStmt, rest cont) string {
 	state := t.assignedOuter(x.Body)
+	if t.loopLocalErr(x) {
+		kept := state[:0:0]
+		for _, s := range state {
+			if s != "err" {
+				kept = append(kept, s)
+			}
+		}
+		state = kept
+	}
 	returns := hasReturn(x.Body)
 	name := func(e ast.Expr) string {
 		if e == nil {
